@@ -50,6 +50,16 @@ CLAIMED["C09"] = dict(
     technique="contract-based deductive verification: string VCs over the real AST + file-system effect obligations, z3; AST dominance analysis",
     design="DESIGN.md §3 C09")
 
+CLAIMED["C12"] = dict(
+    text="The explicit limits are proved as exact contracts on the real code (read_file refuses size > max_file_size > 0 before open(), "
+         "0 disables; 7z archives above 100 MB refused before parsing, the boundary accepted; per-member size checks dominate every "
+         "member read) and every repetition whose count comes from the input carries a bound obligation. Four such obligations fail on "
+         "the unchanged tree and are recorded known findings (ODS repeat attributes, text:s count, 7z oversize members decompressed).",
+    note="NOT decided: peak memory / run time as quantities; amplification inside olefile, lzma/deflate, openpyxl (out of reach of contracts on "
+         "this repository). Assumed: stat().st_size, BytesIO seek/tell model, defusedxml forbids entity expansion; dominance by AST dataflow.",
+    technique="contract-based deductive verification: exact limit contracts + amplification-site obligations over the real AST, z3; AST dominance analysis",
+    design="DESIGN.md §3 C12")
+
 PENDING = {}
 
 ALL = [f"C{i:02d}" for i in range(1, 21)]
